@@ -227,7 +227,7 @@ func mutateExpr(kind, mut string, t hs.Expr) ([]hs.Stmt, bool) {
 
 // ---------------------------------------------------------------- S6
 
-var forIterables = []string{"list", "range", "str", "list-of-lists", "range-inclusive", "empty-list"}
+var forIterables = []string{"list", "range", "str", "list-of-lists", "range-inclusive", "empty-list", "call-returning-shared-list", "call-returning-parameter", "field-of-object", "element-of-list", "grouped-variable"}
 var forBodies = []string{"read", "push-to-source", "set-source-elem", "reassign-source", "assign-loop-var", "pop-source", "nested-same-source", "break-first", "continue-odd", "break-then-reiterate", "return-then-reiterate", "throw-then-reiterate", "iterate-twice"}
 
 func forCount() int { return len(forIterables) * len(forBodies) }
@@ -253,7 +253,34 @@ func forGen(idx int) (progCase, bool) {
 		src = hs.List(hs.List(hs.I(1)), hs.List(hs.I(2)))
 		elemIsList = true
 	}
-	isList := itKind == "list" || itKind == "list-of-lists"
+	// iterable expressions that are not a plain variable but yield a value that is still reachable
+	// through the name `s` (the snapshot must be taken all the same)
+	iterOf := func() hs.Expr { return hs.V("s") }
+	var extraFuncs []*hs.Func
+	var preLoop []hs.Stmt
+	switch itKind {
+	case "call-returning-shared-list":
+		src = hs.List(hs.I(1), hs.I(2), hs.I(3))
+		extraFuncs = append(extraFuncs, hs.Fn("shared", hs.TList(hs.TInt), hs.Blk(hs.V("G"))))
+		iterOf = func() hs.Expr { return hs.CallN("shared") }
+	case "call-returning-parameter":
+		src = hs.List(hs.I(1), hs.I(2), hs.I(3))
+		extraFuncs = append(extraFuncs, hs.Fn("same", hs.TList(hs.TInt), hs.Blk(hs.V("p")), hs.P("p", hs.TList(hs.TInt))))
+		iterOf = func() hs.Expr { return hs.CallN("same", hs.V("s")) }
+	case "field-of-object":
+		src = hs.List(hs.I(1), hs.I(2), hs.I(3))
+		preLoop = append(preLoop, hs.LetS("holder", &hs.ObjLit{Fields: []hs.ObjField{{Name: "items", X: hs.V("s")}}}))
+		iterOf = func() hs.Expr { return hs.Mem(hs.V("holder"), "items") }
+	case "element-of-list":
+		src = hs.List(hs.I(1), hs.I(2), hs.I(3))
+		preLoop = append(preLoop, hs.LetS("outer", hs.List(hs.V("s"))))
+		iterOf = func() hs.Expr { return hs.Idx(hs.V("outer"), hs.I(0)) }
+	case "grouped-variable":
+		src = hs.List(hs.I(1), hs.I(2), hs.I(3))
+		iterOf = func() hs.Expr { return &hs.Group{X: hs.V("s")} }
+	}
+	derived := len(extraFuncs) > 0 || len(preLoop) > 0 || itKind == "grouped-variable"
+	isList := itKind == "list" || itKind == "list-of-lists" || derived
 	var inner []hs.Stmt
 	inner = append(inner, hs.Println(hs.S("it"), hs.V("x")))
 	switch bodyKind {
@@ -302,23 +329,23 @@ func forGen(idx int) (progCase, bool) {
 			inner = append(inner, hs.ES(hs.Asg("=", hs.V("x"), hs.I(50))), hs.Println(hs.S("x"), hs.V("x")))
 		}
 	case "nested-same-source":
-		inner = append(inner, &hs.For{Var: "y", Iter: hs.V("s"), Body: hs.Blk(nil, hs.Println(hs.S("in"), hs.V("x"), hs.V("y")))})
+		inner = append(inner, &hs.For{Var: "y", Iter: iterOf(), Body: hs.Blk(nil, hs.Println(hs.S("in"), hs.V("x"), hs.V("y")))})
 	case "break-then-reiterate", "return-then-reiterate", "throw-then-reiterate", "iterate-twice":
 	case "break-first":
 		inner = append(inner, &hs.Break{})
 	case "continue-odd":
 		inner = append([]hs.Stmt{hs.ES(hs.Asg("+=", hs.V("n"), hs.I(1))), hs.ES(&hs.If{Cond: hs.Bin("==", hs.Bin("%", hs.V("n"), hs.I(2)), hs.I(1)), Then: hs.Blk(nil, &hs.Continue{})})}, inner...)
 	}
-	body := []hs.Stmt{hs.LetS("s", src), hs.LetS("n", hs.I(0)), &hs.For{Var: "x", Iter: hs.V("s"), Body: hs.Blk(nil, inner...)}, hs.Println(hs.S("src"), hs.V("s")), hs.Println(hs.S("end"))}
+	body := []hs.Stmt{hs.LetS("s", src), hs.LetS("n", hs.I(0)), &hs.For{Var: "x", Iter: iterOf(), Body: hs.Blk(nil, inner...)}, hs.Println(hs.S("src"), hs.V("s")), hs.Println(hs.S("end"))}
 	prog := &hs.Program{}
-	again := &hs.For{Var: "y", Iter: hs.V("s"), Body: hs.Blk(nil, hs.Println(hs.S("again"), hs.V("y")))}
+	again := &hs.For{Var: "y", Iter: iterOf(), Body: hs.Blk(nil, hs.Println(hs.S("again"), hs.V("y")))}
 	switch bodyKind {
 	case "break-then-reiterate":
 		// leave the first loop early, then iterate the SAME stored value again (twice)
-		first := &hs.For{Var: "x", Iter: hs.V("s"), Body: hs.Blk(nil, hs.Println(hs.S("it"), hs.V("x")), hs.ES(hs.Asg("+=", hs.V("n"), hs.I(1))), hs.ES(&hs.If{Cond: hs.Bin("==", hs.V("n"), hs.I(2)), Then: hs.Blk(nil, &hs.Break{})}))}
-		body = []hs.Stmt{hs.LetS("s", src), hs.LetS("n", hs.I(0)), first, again, &hs.For{Var: "z", Iter: hs.V("s"), Body: hs.Blk(nil, hs.Println(hs.S("third"), hs.V("z")), &hs.Break{})}, again, hs.Println(hs.S("end"))}
+		first := &hs.For{Var: "x", Iter: iterOf(), Body: hs.Blk(nil, hs.Println(hs.S("it"), hs.V("x")), hs.ES(hs.Asg("+=", hs.V("n"), hs.I(1))), hs.ES(&hs.If{Cond: hs.Bin("==", hs.V("n"), hs.I(2)), Then: hs.Blk(nil, &hs.Break{})}))}
+		body = []hs.Stmt{hs.LetS("s", src), hs.LetS("n", hs.I(0)), first, again, &hs.For{Var: "z", Iter: iterOf(), Body: hs.Blk(nil, hs.Println(hs.S("third"), hs.V("z")), &hs.Break{})}, again, hs.Println(hs.S("end"))}
 	case "iterate-twice":
-		body = []hs.Stmt{hs.LetS("s", src), &hs.For{Var: "x", Iter: hs.V("s"), Body: hs.Blk(nil, hs.Println(hs.S("it"), hs.V("x")))}, again, hs.Println(hs.S("end"))}
+		body = []hs.Stmt{hs.LetS("s", src), &hs.For{Var: "x", Iter: iterOf(), Body: hs.Blk(nil, hs.Println(hs.S("it"), hs.V("x")))}, again, hs.Println(hs.S("end"))}
 	case "return-then-reiterate":
 		var pt *hs.Type
 		switch itKind {
@@ -330,12 +357,29 @@ func forGen(idx int) (progCase, bool) {
 			pt = hs.TRange
 		case "str":
 			pt = hs.TStr
+		default:
+			pt = hs.TList(hs.TInt)
 		}
 		prog.Funcs = append(prog.Funcs, hs.Fn("firstOf", nil, hs.Blk(nil, &hs.For{Var: "x", Iter: hs.V("q"), Body: hs.Blk(nil, hs.Println(hs.S("first"), hs.V("x")), &hs.Return{})}), hs.P("q", pt)))
 		body = []hs.Stmt{hs.LetS("s", src), hs.ES(hs.CallN("firstOf", hs.V("s"))), hs.ES(hs.CallN("firstOf", hs.V("s"))), again, hs.Println(hs.S("end"))}
 	case "throw-then-reiterate":
-		thr := &hs.For{Var: "x", Iter: hs.V("s"), Body: hs.Blk(nil, hs.Println(hs.S("it"), hs.V("x")), hs.ES(hs.CallN("throw", hs.S("stop"))))}
+		thr := &hs.For{Var: "x", Iter: iterOf(), Body: hs.Blk(nil, hs.Println(hs.S("it"), hs.V("x")), hs.ES(hs.CallN("throw", hs.S("stop"))))}
 		body = []hs.Stmt{hs.LetS("s", src), hs.ES(&hs.Try{Body: hs.Blk(nil, thr), Var: "e", Catch: hs.Blk(nil, hs.Println(hs.S("caught"), hs.Mem(hs.V("e"), "message")))}), again, hs.Println(hs.S("end"))}
+	}
+	if derived {
+		// insert the statements that create the derived holder right after `let s = ...;`
+		for i, st := range body {
+			if l, ok := st.(*hs.Let); ok && l.Name == "s" {
+				if itKind == "call-returning-shared-list" {
+					prog.Globals = append(prog.Globals, &hs.Let{Name: "G", X: l.X})
+					body[i] = hs.LetS("s", hs.V("G"))
+				}
+				rest := append([]hs.Stmt{}, body[i+1:]...)
+				body = append(append(body[:i+1:i+1], preLoop...), rest...)
+				break
+			}
+		}
+		prog.Funcs = append(prog.Funcs, extraFuncs...)
 	}
 	prog.Funcs = append(prog.Funcs, hs.Fn("main", nil, hs.Blk(nil, body...)))
 	tags := []string{"for:" + itKind, "body:" + bodyKind}
